@@ -173,6 +173,8 @@ TResolved ==
   /\ LET b == BatchWith(Ev.rid) IN
        \/ batch[b].st = "done" /\ Ev.k \in {"ok", "noack"}
        \/ batch[b].st = "failed" /\ Ev.k = "err"
+       \/ Ev.k = "cancelled"          \* the APPLICATION cancelled the future it was given (allowed at any time; the
+                                      \* record is sent all the same and the other futures of the batch are not affected)
   /\ Ev.k = "ok" => Ev.tp = batch[BatchWith(Ev.rid)].p
   /\ res' = Upd(res, Ev.rid, [k |-> Ev.k, off |-> Ev.off, ts |-> Ev.ts, tt |-> Ev.tt])
   /\ nres' = Upd(nres, Ev.rid, (IF Ev.rid \in DOMAIN nres THEN nres[Ev.rid] ELSE 0) + 1)
